@@ -13,6 +13,7 @@
 import DfolsVerif.Kernels.Clip
 import DfolsVerif.Gen.CallSites
 import DfolsVerif.Gen.ClipFns
+import DfolsVerif.Proofs.Scaling
 
 namespace Dfols
 namespace C01
@@ -134,6 +135,24 @@ theorem C01_new_exact :
 
 example : InBoxOrNaN 3 9 (asAbs (valOps (fun _ _ => .num 100) (fun _ _ => .nan)) (.num 3) (.num 9) (.num 0) (.num 1) (.num 2) (.num 7)) :=
   C01_asAbs_in_bounds _ _ 3 9 (by omega) _ _ _ _
+
+/-! ### layer G: `scaling_within_bounds` (apply_scaling / remove_scaling translated from util.py on every run) -/
+
+/-- **scaling is a round trip on the box, and un-scaling clamps** (exact arithmetic, any linearly ordered field): with
+    `shift = xl`, `scale = xu − xl` as `solve()` defines them (`xl < xu`), the bounds are scaled to 0 and 1, a point of the
+    box is scaled into [0, 1] and un-scaled back to itself, and un-scaling ANY internal point gives a point of the user's
+    box `[xl, xu]` (the clamp with the third and fourth entries of `scaling_changes`, which are `xl`, `xu`). -/
+theorem C01_scaling_roundtrip {K : Type*} [Field K] [LinearOrder K] [IsStrictOrderedRing K] (xl xu x z : K) (h : xl < xu)
+    (hx : xl ≤ x ∧ x ≤ xu) :
+    let shift := Gen.scalingShiftSrc xl xu
+    let scale := Gen.scalingScaleSrc xl xu
+    Gen.applyScalingSrc shift scale xl = 0 ∧ Gen.applyScalingSrc shift scale xu = 1 ∧
+    (0 ≤ Gen.applyScalingSrc shift scale x ∧ Gen.applyScalingSrc shift scale x ≤ 1) ∧
+    Gen.removeScalingSrc shift scale xl xu (Gen.applyScalingSrc shift scale x) = x ∧
+    (xl ≤ Gen.removeScalingSrc shift scale xl xu z ∧ Gen.removeScalingSrc shift scale xl xu z ≤ xu) ∧
+    Gen.scalingTuple = ["shift", "scale", "xl", "xu"] :=
+  ⟨(Scaling.scaled_box xl xu h).1, (Scaling.scaled_box xl xu h).2, Scaling.scaled_in_unit xl xu x h hx,
+   Scaling.remove_apply xl xu x h hx, Scaling.remove_in_box _ _ xl xu z h.le, Scaling.tuple_shape⟩
 
 end C01
 end Dfols
